@@ -1,3 +1,4 @@
+import Fzf.Lemmas.V2Decides
 import Fzf.Lemmas.Subseq
 import Fzf.Lemmas.Prefilter
 import Fzf.Lemmas.Prog
@@ -191,5 +192,28 @@ example : OccAt (fun c pc => c == pc) #[32, 32, 102, 111, 111, 32, 98, 97, 114] 
   intro i hi
   have : i = 0 ∨ i = 1 ∨ i = 2 := by simp at hi; omega
   rcases this with h | h | h <;> subst h <;> decide
+
+/-- **FuzzyMatchV2 — the default algorithm — is sound and complete.** Whenever it returns its
+    match decision (`withPos = false`, as `Pattern.Match` calls it), it reports a match exactly
+    when the pattern is a subsequence of the folded text: every reported match has a witness and
+    "no match" means none exists. For every text and pattern, both scan directions, byte and rune
+    representation, every slab capacity (the fall-back to V1 on a small slab included), through
+    the ASCII pre-filter and the window it cuts out of the text (`window_keeps`: the window loses
+    no embedding), and V2's own character folding (`v2Fold_eq_foldRune`: it agrees with the
+    folding of the other matchers). That it returns at all — no index out of range in phases 3
+    and 4 — is established per case by the correspondence. -/
+theorem C02_v2_sound_complete (cfg : Cfg) (cs norm fwd : Bool) (t : Text) (isBytes : Bool) (p : Text)
+    (slabCap : Option Nat) (r : Res) (hp : 0 < p.size)
+    (hascii : isBytes = true → ∀ c ∈ t.toList, c < 128) (hnorm : ∀ c, c < 128 → cfg.norm c = c)
+    (h : fuzzyMatchV2 cfg cs norm fwd t isBytes p false slabCap = .ok r) :
+    (0 ≤ r.start ↔ List.Sublist p.toList (t.toList.map (foldRune cfg cs norm))) :=
+  fuzzyMatchV2_decides cfg cs norm fwd t isBytes p slabCap r hp hascii hnorm h
+
+/-- Phase 2 of V2 on its own: it has found the whole pattern exactly when the pattern is a
+    subsequence of the folded window. -/
+theorem C02_v2_phase2_greedy (cfg : Cfg) (cs norm fwd : Bool) (win : Array Nat) (p : Text) (hp : 0 < p.size) :
+    (phase2 cfg cs norm fwd win p).pidx = p.size ↔
+      List.Sublist p.toList (win.toList.map fun c => (v2Fold cfg cs norm c).2) := by
+  rw [phase2_pidx_iff cfg cs norm fwd win p hp, Spec.isSubseq_iff]
 
 end Fzf.Props.C02
